@@ -109,6 +109,7 @@ def r1(cx, rec):
         raise AnchorMissing('validate has %d parameters' % len(params))
     hp, ip = params
     got = {}
+    edges = {}
     for sb in V.switches():
         e, ts, o = V.cond(sb)
         be = V.bool_edges(sb)
@@ -133,6 +134,8 @@ def r1(cx, rec):
                 else:
                     dom = [b for b in oks if b in V.only_via_edge((sb, same_edge))]
                 got.setdefault(prm, []).append((sb, fld, dom))
+                if len(r) != 3:
+                    edges.setdefault(prm, []).append((sb, fld, same_edge))
                 rec.site(V, sb, 'Ok requires %s == %s (dominates %d/%d Ok exits)' % (fld, prm, len(dom), len(oks)))
     h = got.get(hp, [])
     rec.need(bool(h) and any(len(dom) == len(oks) and 'hash' in fld for sb, fld, dom in h), 'validate-hash-not-compared', V, None,
@@ -145,6 +148,11 @@ def r1(cx, rec):
         some_oks = [b for b in oks if b in V.only_via_edge((sb, ve['Some']))]
         i = got.get(ip, [])
         okid = any(set(some_oks) <= set(dom) and 'id' in fld for s2, fld, dom in i) and bool(some_oks)
+        if not okid:
+            # one Ok exit shared by both arms (`if let Some(id) = expected { compare } Ok(())`): from the Some arm every Ok exit
+            # is reached only through the "equal" edge of the comparison
+            okid = any('id' in fld and not any(b in V.reach_from(ve['Some'], cut_edges=[(s2, same)]) for b in oks)
+                       for s2, fld, same in edges.get(ip, []))
         rec.need(okid, 'validate-id-not-compared', V, sb,
                  'with an expected peer id, validate can return Ok without the received id being equal to it')
     # the handler
